@@ -178,7 +178,21 @@ func (st *cacheState) apply(op []string, o *hx.Out) {
 			}
 			return fmt.Sprintf("%s count=%d", s, st.c.Count())
 		case "expire":
-			out := st.c.Expire(nil, tm(atoi(op[1])))
+			// the caller's slice may already hold entries (expired entries of several sweeps collected in one slice)
+			pre := make([]kademlia.Entry[[]byte], ((atoi(op[1])%3)+3)%3)
+			for i := range pre {
+				pre[i].Key = []byte{0xee, byte(i)}
+			}
+			out := st.c.Expire(pre, tm(atoi(op[1])))
+			if len(out) < len(pre) {
+				return "expire-dropped-callers-entries"
+			}
+			for i := range pre {
+				if !bytes.Equal(out[i].Key, []byte{0xee, byte(i)}) {
+					return "expire-changed-callers-entries"
+				}
+			}
+			out = out[len(pre):]
 			var ks [][]byte
 			for _, e := range out {
 				ks = append(ks, e.Key)
